@@ -647,6 +647,22 @@ Proof.
 Qed.
 
 (** ---------- removing a list of pin ids of one CID ---------- *)
+Definition keep (sl : sel) (ids : list N) (q : prec) : bool :=
+  negb (existsb (N.eqb (r_id q)) ids && sel_mode sl (r_mode q)).
+
+Lemma filter_filter {A} (f g : A -> bool) (l : list A) :
+  filter f (filter g l) = filter (fun x => g x && f x) l.
+Proof.
+  induction l as [|a l IH]; cbn [filter]; [reflexivity|].
+  destruct (g a); cbn [filter andb]; [destruct (f a)|]; rewrite IH; reflexivity.
+Qed.
+
+Lemma filter_true {A} (f : A -> bool) (l : list A) : (forall a, In a l -> f a = true) -> filter f l = l.
+Proof.
+  induction l as [|a l IH]; intros H; cbn [filter]; [reflexivity|].
+  rewrite (H a (or_introl eq_refl)). f_equal. apply IH. intros x Hx. apply H. right. exact Hx.
+Qed.
+
 Lemma remove_ids_ok C c sl : forall ids p b p',
   Inv C p -> NoDup ids ->
   (forall i, In i ids -> exists r, find_rec i (st p) = Some r /\ r_cid r = c) ->
@@ -655,15 +671,18 @@ Lemma remove_ids_ok C c sl : forall ids p b p',
   Inv C p' /\ Steps C p p' /\
   (forall q, In q (recs (st p')) -> In q (recs (st p))) /\
   (forall q, In q (recs (st p)) -> ~ In (r_id q) ids -> In q (recs (st p'))) /\
-  autosync p' = autosync p /\ (b = false -> p' = p).
+  autosync p' = autosync p /\ (b = false -> p' = p) /\
+  recs (st p') = filter (keep sl ids) (recs (st p)).
 Proof.
   induction ids as [|i rest IH]; intros p b p' HI Hnd Hrec Hwit Hrun.
   - cbn [remove_ids] in Hrun. inversion Hrun. subst.
-    split; [exact HI|]. split; [apply steps_refl, Inv_Q; exact HI|]. repeat split; auto.
+    split; [exact HI|]. split; [apply steps_refl, Inv_Q; exact HI|].
+    split; [auto|]. split; [auto|]. split; [reflexivity|]. split; [reflexivity|].
+    symmetry. apply filter_true. intros a _. reflexivity.
   - cbn [remove_ids] in Hrun. destruct (Hrec i (or_introl eq_refl)) as [r [Hfr Hrc]].
     rewrite Hfr in Hrun. inversion Hnd as [|x l Hnot Hnd' E]. subst x l.
     pose proof (find_rec_some _ _ _ Hfr) as [Hrin Hrid].
-    destruct (sel_mode sl (r_mode r)).
+    destruct (sel_mode sl (r_mode r)) eqn:Esel.
     + (* removePin *)
       pose proof HI as (I1 & I2 & I3 & I4 & I5).
       assert (Hsafe : forall c', In c' C -> exists q, In q (recs (st p)) /\ r_cid q = c' /\ r_id q <> r_id r).
@@ -679,7 +698,7 @@ Proof.
       set (p1 := remove_pin r p) in *.
       destruct (remove_ids c sl rest p1) as [b1 p1'] eqn:Hrest. inversion Hrun. subst b p'.
       assert (HI1 : Inv C p1) by (apply D_CP_Inv; assumption).
-      destruct (IH p1 b1 p1' HI1 Hnd') as (J1 & J2 & J3 & J4 & J5 & _).
+      destruct (IH p1 b1 p1' HI1 Hnd') as (J1 & J2 & J3 & J4 & J5 & _ & J7).
       * intros j Hj. destruct (Hrec j (or_intror Hj)) as [rj [Hfj Hcj]]. exists rj. split; [|exact Hcj].
         unfold find_rec. rewrite R1. rewrite find_del_other; [exact Hfj|]. intros E. subst j. contradiction.
       * intros Hc. destruct (Hwit Hc) as [q [Q1 [Q2 Q3]]]. exists q. split.
@@ -691,16 +710,25 @@ Proof.
         split. { intros q Hq Hnin. apply J4.
                  - rewrite R1. apply del_rec_In. split; [exact Hq|]. intros E. apply Hnin. left. symmetry. exact E.
                  - intros Hin. apply Hnin. right. exact Hin. }
-        split; [rewrite J5; exact A1|]. intros E. discriminate.
+        split; [rewrite J5; exact A1|]. split; [intros E; discriminate|].
+        rewrite J7, R1. unfold del_rec. rewrite filter_filter. apply filter_ext_in. intros q Hq.
+        unfold keep. cbn [existsb]. destruct (r_id q =? i) eqn:Eq.
+        { apply N.eqb_eq in Eq. pose proof (find_rec_uid _ _ I2 Hq) as Fq. rewrite Eq, <- Hrid, Hfr in Fq.
+          inversion Fq. subst q. rewrite Esel. reflexivity. }
+        { reflexivity. }
     + (* not selected: skip *)
-      destruct (IH p b p' HI Hnd') as (J1 & J2 & J3 & J4 & J5 & J6).
+      destruct (IH p b p' HI Hnd') as (J1 & J2 & J3 & J4 & J5 & J6 & J7).
       * intros j Hj. apply Hrec. right. exact Hj.
       * intros Hc. destruct (Hwit Hc) as [q [Q1 [Q2 Q3]]]. exists q. split; [exact Q1|]. split; [exact Q2|].
         intros Hin. apply Q3. right. exact Hin.
       * exact Hrun.
       * split; [exact J1|]. split; [exact J2|]. split; [exact J3|].
         split. { intros q Hq Hnin. apply J4; [exact Hq|]. intros Hin. apply Hnin. right. exact Hin. }
-        split; [exact J5|exact J6].
+        split; [exact J5|]. split; [exact J6|].
+        rewrite J7. apply filter_ext_in. intros q Hq. unfold keep. cbn [existsb].
+        destruct (r_id q =? i) eqn:Eq; [|reflexivity].
+        apply N.eqb_eq in Eq. pose proof HI as (_ & I2 & _). pose proof (find_rec_uid _ _ I2 Hq) as Fq.
+        rewrite Eq, Hfr in Fq. inversion Fq. subst q. rewrite Esel. cbn [orb andb]. rewrite andb_false_r. reflexivity.
 Qed.
 
 (** the ids an index search finds have records with that CID *)
@@ -770,12 +798,13 @@ Qed.
 Lemma remove_pins_ok C c sl p b p' :
   Inv C p -> ~ In c C -> remove_pins_for_cid c sl p = (b, p') ->
   Inv C p' /\ Steps C p p' /\ (forall q, In q (recs (st p')) -> In q (recs (st p))) /\
-  autosync p' = autosync p /\ (b = false -> p' = p).
+  autosync p' = autosync p /\ (b = false -> p' = p) /\
+  recs (st p') = filter (keep sl (sel_ids c sl (st p))) (recs (st p)).
 Proof.
   intros HI Hc Hrun. unfold remove_pins_for_cid in Hrun. pose proof HI as (I1 & _).
-  destruct (remove_ids_ok C c sl _ p b p' HI (sel_ids_nodup c sl _ I1) (sel_ids_recs c sl _ I1)) as (J1 & J2 & J3 & _ & J5 & J6);
+  destruct (remove_ids_ok C c sl _ p b p' HI (sel_ids_nodup c sl _ I1) (sel_ids_recs c sl _ I1)) as (J1 & J2 & J3 & _ & J5 & J6 & J7);
     [intros H; contradiction|exact Hrun|].
-  split; [exact J1|]. split; [exact J2|]. split; [exact J3|]. split; [exact J5|exact J6].
+  split; [exact J1|]. split; [exact J2|]. split; [exact J3|]. split; [exact J5|]. split; [exact J6|exact J7].
 Qed.
 
 Lemma cond_remove_ok C c sl p (b : bool) :
@@ -812,7 +841,8 @@ Lemma add_then_remove_ok C newid c m n sl p :
   let old := sel_ids c sl (st p) in
   let p1 := add_pin newid c m n p in
   let p2 := snd (remove_ids c sl old p1) in
-  Inv C p2 /\ Steps C p p2 /\ autosync p2 = autosync p.
+  Inv C p2 /\ Steps C p p2 /\ autosync p2 = autosync p /\
+  recs (st p2) = filter (keep sl old) (recs (st p) ++ [mkrec newid c m n]).
 Proof.
   intros HI Hf old p1 p2. pose proof HI as (I1 & I2 & _).
   destruct (add_pin_ok C p newid c m n HI Hf) as (D1 & S1 & C1 & P1 & R1 & G1 & A1). fold p1 in D1, S1, C1, P1, R1, G1, A1.
@@ -822,13 +852,14 @@ Proof.
   { intros i Hi E. subst i. destruct (Hold newid Hi) as [r [Hr _]]. apply find_rec_some in Hr.
     destruct Hr as [Hr1 Hr2]. apply Hf. rewrite <- Hr2. apply in_map. exact Hr1. }
   unfold p2. destruct (remove_ids c sl old p1) as [b p'] eqn:E. cbn [snd].
-  destruct (remove_ids_ok C c sl old p1 b p' HI1 (sel_ids_nodup c sl _ I1)) as (J1 & J2 & _ & _ & J5 & _).
+  destruct (remove_ids_ok C c sl old p1 b p' HI1 (sel_ids_nodup c sl _ I1)) as (J1 & J2 & _ & _ & J5 & _ & J7).
   - intros i Hi. destruct (Hold i Hi) as [r [Hr Hc]]. exists r. split; [|exact Hc].
     rewrite (find_rec_app_other i (st p) (st p1) _ R1); [exact Hr|]. cbn [r_id]. apply Hne. exact Hi.
   - intros _. exists (mkrec newid c m n). split; [rewrite R1; apply in_or_app; right; left; reflexivity|].
     split; [reflexivity|]. cbn [r_id]. intros Hin. exact (Hne _ Hin eq_refl).
   - exact E.
-  - split; [exact J1|]. split; [eapply steps_trans; [exact S1|exact J2]|]. rewrite J5. exact A1.
+  - split; [exact J1|]. split; [eapply steps_trans; [exact S1|exact J2]|]. split; [rewrite J5; exact A1|].
+    rewrite J7, R1. reflexivity.
 Qed.
 
 Lemma finish_ok C force p0 p :
